@@ -74,11 +74,16 @@ var stampedRport = regexp.MustCompile(`;rport=[0-9]+`)
 // twinNorm removes what legitimately differs between the twins from one header value
 // (startLine = true for the first line, where the service names live).
 func twinNorm(w *wire.World, s string, svc int, startLine bool) string {
-	base := svc % twinShift
 	s = strings.ReplaceAll(s, w.Svcs[svc].IP, "LISTENER")
-	s = strings.ReplaceAll(s, wire.AliasName(svc), wire.AliasName(base))
-	if startLine {
-		s = strings.NewReplacer(svcNamePairs(svc, base)...).Replace(s)
+	if svc < twinShift {
+		// the canonical side is mapped forward with the very function that produced the twin's
+		// input; the twin's side is left as it is. (Mapping the twin's side back would also hit
+		// text that names the twin by chance - a generated tel:+999... Request-URI - and that
+		// text is the same on both sides.)
+		s = strings.ReplaceAll(s, wire.AliasName(svc), wire.AliasName(svc+twinShift))
+		if startLine {
+			s = strings.NewReplacer(svcNamePairs(svc, svc+twinShift)...).Replace(s)
+		}
 	}
 	return s
 }
@@ -186,7 +191,7 @@ type twinOut struct {
 	ncl   int
 }
 
-func twinProject(w *wire.World, o *wire.Obs, svc int, id string) twinOut {
+func twinProject(w *wire.World, o *wire.Obs, svc int, id string, otherIDs ...string) twinOut {
 	t := twinOut{}
 	sv := w.Svcs[svc]
 	if sv.BackendEndpointNames()[o.Ep] {
@@ -220,7 +225,13 @@ func twinProject(w *wire.World, o *wire.Obs, svc int, id string) twinOut {
 			t.rest = append(t.rest, sip.Header{Name: "content-length", Value: h.Value})
 		default:
 			// (a generated extension name may contain the case id by chance: it was replaced like every other occurrence)
-			t.rest = append(t.rest, sip.Header{Name: strings.ReplaceAll(sip.Canon(h.Name), strings.ToLower(id), "CASE"), Value: tn(h.Value)})
+			// (the twin's copy of such a name was respelled before its id was exchanged, so it may still
+			// carry the canonical side's id in another letter case)
+			name := sip.Canon(h.Name)
+			for _, x := range append([]string{id}, otherIDs...) {
+				name = strings.ReplaceAll(name, strings.ToLower(x), "CASE")
+			}
+			t.rest = append(t.rest, sip.Header{Name: name, Value: tn(h.Value)})
 		}
 	}
 	t.body = o.Msg.Body
@@ -360,7 +371,7 @@ func scenarioTwin() int {
 				run.Eval("")
 				continue
 			}
-			pa, pb := twinProject(w, oa[0], a, idA), twinProject(w, ob[0], a+twinShift, idB)
+			pa, pb := twinProject(w, oa[0], a, idA, idB), twinProject(w, ob[0], a+twinShift, idB, idA)
 			if why := twinDiff(pa, pb); why != "" {
 				run.Violation("spelling or layout changes what is relayed", detail(why))
 				continue
@@ -391,7 +402,7 @@ func scenarioTwin() int {
 					continue
 				}
 				if len(oa2) == 2 {
-					qa, qb := twinProject(w, oa2[1], a, idA), twinProject(w, ob2[1], a+twinShift, idB)
+					qa, qb := twinProject(w, oa2[1], a, idA, idB), twinProject(w, ob2[1], a+twinShift, idB, idA)
 					if why := twinDiff(qa, qb); why != "" {
 						oa, ob = oa2[1:], ob2[1:]
 						run.Violation("spelling or layout changes how the second response of a transaction is relayed", detail(why))
